@@ -1,4 +1,5 @@
 import CwMt.Proofs.Engine
+import CwMt.Proofs.EngineObs
 /-
   C02 — A failed sub-message leaves no trace; caught only if reply_on says so.
   Model: `executeSubmsg`, `processResponse`, `reply` of CwMt/Model/Engine.lean. All statements hold
@@ -69,5 +70,28 @@ theorem uncaught_propagates (cfg : Config E) (blk : Block) (fuel : Nat) (ch : Ch
     (h : executeSubmsg cfg blk fuel ch contract sm tr = (.err, tr₁)) :
     processResponse cfg blk (fuel + 1) ch contract resp (sm :: rest) tr = (.err, tr₁) :=
   Engine.uncaught_propagates cfg blk fuel ch contract resp sm rest tr tr₁ h
+
+/-! ### "leaves no trace": what failed, and how far it got, is invisible to everything that follows -/
+
+/-- The ghost invocation trace is a pure observer: the outcome and the resulting state of an execution
+do not depend on the trace handed in, and the entries appended are the same. -/
+theorem trace_is_observer (cfg : Config E) (blk : Block) (fuel : Nat) (ch : Chain E) (sender : Addr) (m : Msg)
+    (tr₁ tr₂ : Trace) :
+    (execute cfg blk fuel ch sender m tr₁).1 = (execute cfg blk fuel ch sender m tr₂).1 ∧
+    ∃ new, (execute cfg blk fuel ch sender m tr₁).2 = tr₁ ++ new ∧
+           (execute cfg blk fuel ch sender m tr₂).2 = tr₂ ++ new :=
+  EngineObs.trace_is_observer cfg blk fuel ch sender m tr₁ tr₂
+
+/-- Two sub-messages with the same id, payload and reply mode that both fail — whatever they are,
+however deep they went and whatever they wrote before failing — leave the parent in exactly the
+same situation: same outcome, same state, same response. -/
+theorem failed_subs_indistinguishable (cfg : Config E) (blk : Block) (fuel : Nat) (ch : Chain E) (contract : Addr)
+    (sm sm' : SubMsg) (tr tr₁ tr₁' : Trace)
+    (hid : sm'.id = sm.id) (hp : sm'.payload = sm.payload) (hr : sm'.replyOn = sm.replyOn)
+    (h : execute cfg blk fuel ch contract sm.msg tr = (.err, tr₁))
+    (h' : execute cfg blk fuel ch contract sm'.msg tr = (.err, tr₁')) :
+    (executeSubmsg cfg blk (fuel + 1) ch contract sm tr).1 =
+      (executeSubmsg cfg blk (fuel + 1) ch contract sm' tr).1 :=
+  EngineObs.failed_subs_indistinguishable cfg blk fuel ch contract sm sm' tr tr₁ tr₁' hid hp hr h h'
 
 end CwMt.C02
